@@ -136,7 +136,7 @@ func (l *Gpos1_1) encode() []byte {
 	buf := make([]byte, 0, total)
 	buf = append(buf,
 		0, 1, // format
-		byte(coverageOffs>>8), byte(coverageOffs),
+		byte(offs16(int(coverageOffs))>>8), byte(coverageOffs),
 		byte(format>>8), byte(format),
 	)
 	buf = append(buf, l.Adjust.encode(format)...)
@@ -227,7 +227,7 @@ func (l *Gpos1_2) encode() []byte {
 	buf := make([]byte, 0, total)
 	buf = append(buf,
 		0, 2, // format
-		byte(coverageOffset>>8), byte(coverageOffset),
+		byte(offs16(int(coverageOffset))>>8), byte(coverageOffset),
 		byte(valueFormat>>8), byte(valueFormat),
 		byte(valueCount>>8), byte(valueCount),
 	)
@@ -412,7 +412,7 @@ func (l Gpos2_1) encode() []byte {
 	}
 	pairSetOffsets := make([]uint16, pairSetCount)
 	for i, adj := range adjust {
-		pairSetOffsets[i] = uint16(total)
+		pairSetOffsets[i] = offs16(total)
 		total += 2 + 2*len(adj)
 		for _, v := range adj {
 			total += v.First.encodeLen(valueFormat1)
@@ -423,7 +423,7 @@ func (l Gpos2_1) encode() []byte {
 	buf := make([]byte, 0, total)
 	buf = append(buf,
 		0, 1, // format
-		byte(coverageOffset>>8), byte(coverageOffset),
+		byte(offs16(int(coverageOffset))>>8), byte(coverageOffset),
 		byte(valueFormat1>>8), byte(valueFormat1),
 		byte(valueFormat2>>8), byte(valueFormat2),
 		byte(pairSetCount>>8), byte(pairSetCount),
@@ -617,11 +617,11 @@ func (l *Gpos2_2) encode() []byte {
 	res := make([]byte, 0, total)
 	res = append(res,
 		0, 2, // posFormat
-		byte(coverageOffset>>8), byte(coverageOffset),
+		byte(offs16(int(coverageOffset))>>8), byte(coverageOffset),
 		byte(valueFormat1>>8), byte(valueFormat1),
 		byte(valueFormat2>>8), byte(valueFormat2),
-		byte(classDef1Offset>>8), byte(classDef1Offset),
-		byte(classDef2Offset>>8), byte(classDef2Offset),
+		byte(offs16(int(classDef1Offset))>>8), byte(classDef1Offset),
+		byte(offs16(int(classDef2Offset))>>8), byte(classDef2Offset),
 		byte(class1Count>>8), byte(class1Count),
 		byte(class2Count>>8), byte(class2Count),
 	)
@@ -759,11 +759,11 @@ func (l *Gpos3_1) encode() []byte {
 	exitOffs := make([]uint16, entryExitCount)
 	for i, rec := range l.Records {
 		if !rec.Entry.IsEmpty() {
-			entryOffs[i] = uint16(total)
+			entryOffs[i] = offs16(total)
 			total += 6
 		}
 		if !rec.Exit.IsEmpty() {
-			exitOffs[i] = uint16(total)
+			exitOffs[i] = offs16(total)
 			total += 6
 		}
 	}
@@ -774,7 +774,7 @@ func (l *Gpos3_1) encode() []byte {
 
 	res = append(res,
 		0, 1, // posFormat
-		byte(coverageOffset>>8), byte(coverageOffset),
+		byte(offs16(int(coverageOffset))>>8), byte(coverageOffset),
 		byte(entryExitCount>>8), byte(entryExitCount),
 	)
 	for i := 0; i < entryExitCount; i++ {
